@@ -103,7 +103,8 @@ _reg('RiemFan', 'rho_p_u_rarefaction', ['pk', 'rk', 'uk', 'gk', 'x', 'xd0', 't',
 for _n in ('SCN', 'NCS', 'NCR', 'RCN', 'RCVR'):
     _reg('RiemU' + _n, 'u_' + _n, ['px', 'inst'], ['u'])
 for _n in ('SCS', 'SCR', 'RCS', 'RCR'):
-    _reg('Riem' + _n, _n + '_call', ['px', 'inst'], ['res'], pvars=('px',), deriv=[])
+    # monotonicity in px is proved from the certificates of `shock` and `rarefaction` (EPV.Lemmas.RiemannMono)
+    _reg('Riem' + _n, _n + '_call', ['px', 'inst'], ['res'], pvars=('px',))
 
 # ---- general-EOS helpers on ideal-gas data and on JWL data ----------------------------------
 for _sfx, _pb in (('IG', 'igeos'), ('JWL', 'JWL')):
